@@ -84,7 +84,8 @@ def check_neighbour_dot(run, pkg, fname):
         if e.kind == "assign" and len(e.loops) == 1 and e.data["value"][0] == "call" and e.data["value"][1] == ".sum" and kw(e.data["value"], "axis", 1) == C(1):
             med, mev = e.data["value"], e
     if med is None:
-        raise AnalysisError(f"{fq}: neighbour dot products not found")
+        vectorised_neighbour_dot(run, pkg, it, fq, fname, NL)
+        return
     L = it.loops[mev.loops[0]]
     i = L.target
     okd = L.iter == ("call", "builtins.range", (("sub", ("attr", VEC, "shape"), C(0)),), ())
@@ -116,6 +117,51 @@ def check_neighbour_dot(run, pkg, fname):
             ok2 = acc(num, ("call", ".sum", (med,), ())) and acc(den, ("call", ".sum", (("call", "numpy.abs", (med,), ()),), ()))
         run.ob("R-ALG", fq, "quotient", ok2, "phase quotient = sum_ij d_ij / sum_ij |d_ij| (both sums from 0 over all particles and neighbours)", show(ret)[:110],
                witness=None if ok2 else "denominator is not the sum of absolute values: result may leave [-1, 1]", loc=fi.loc())
+
+
+def vectorised_neighbour_dot(run, pkg, it, fq, fname, NL):
+    """Loop-free form (possibly through a small helper): the extracted return term, with helpers inlined and the neighbour
+    table as a free variable, is decided on small zero-padded neighbour tables with unequal coordination numbers."""
+    import numpy as np
+    from ..concrete import ev as cev, Unsupported
+    from ..vg import inline_calls
+    fi = it.fi
+    if len(it.returns) != 1:
+        raise AnalysisError(f"{fq}: neighbour dot products not found")
+    ret = inline_calls(pkg, it.returns[0].data["value"])
+    CN = ("sym", "<cnlist>")
+    ret = subst(ret, lambda x: CN if x == NL else None)
+    rng = np.random.default_rng(11)
+    bad = None
+    try:
+        for trial in range(4):
+            N, d = 6, 2 + trial % 2
+            Vm = rng.normal(size=(N, d))
+            cns = [2, 4, 1, 3, 2, 4] if trial % 2 == 0 else [4, 1, 2, 2, 3, 1]
+            cn = np.zeros((N, 5), dtype=int)
+            for i_ in range(N):
+                others = [j for j in range(N) if j != i_]
+                rng.shuffle(others)
+                cn[i_, 0] = cns[i_]
+                cn[i_, 1:1 + cns[i_]] = others[:cns[i_]]
+            dots = [np.array([Vm[i_] @ Vm[j] for j in cn[i_, 1:1 + cn[i_, 0]]]) for i_ in range(N)]
+            if fname == "local_vector_alignment":
+                want = np.array([x.mean() for x in dots])
+            else:
+                want = sum(x.sum() for x in dots) / sum(np.abs(x).sum() for x in dots)
+            got = np.asarray(cev(ret, {VEC: Vm, CN: cn}))
+            if got.shape != np.shape(want) or not np.allclose(got, want):
+                if got.ndim == 1 and got.shape == np.shape(want):
+                    k = int(np.argmax(np.abs(got - want)))
+                    bad = (f"neighbour table with coordination numbers {cns} (zero padded to 4 columns): particle {k} (cn={cns[k]}) gets {got[k]:.5f} instead of {want[k]:.5f}")
+                else:
+                    bad = f"neighbour table with coordination numbers {cns}: result {np.round(got, 5).tolist() if got.ndim == 0 else got.shape} instead of {np.round(want, 5).tolist() if np.ndim(want) == 0 else np.shape(want)}"
+                break
+        what = "result[i] = mean over the cn_i listed neighbours of e_i . e_j" if fname == "local_vector_alignment" else "phase quotient = sum d_ij / sum |d_ij| over listed neighbours"
+        run.ob("R-ALG", fq, "alignment" if fname == "local_vector_alignment" else "quotient", bad is None, what + " (zero padding and the count column excluded), vectorised form decided on 4 padded neighbour tables",
+               show(ret)[:140], witness=bad, loc=fi.loc())
+    except (Unsupported, Exception) as e:  # noqa
+        run.ob("R-ALG", fq, "form", None, "neighbour dot-product form recognised", f"{type(e).__name__}: {str(e)[:100]}", loc=fi.loc())
 
 
 def check_divcurl(run, pkg):
